@@ -58,3 +58,41 @@ pub fn lock_point<T>(name: &str, mutex: &Mutex<T>) {
         }
     }
 }
+
+use std::sync::atomic::{AtomicU32, Ordering};
+
+/// Port the EPMD client uses instead of 4369 (0 = no override). Lets a test harness stand in for EPMD on an
+/// ephemeral loopback port; `Connection::connect` and `Node::start` otherwise hard-wire the well-known port.
+static EPMD_PORT_OVERRIDE: AtomicU32 = AtomicU32::new(0);
+
+pub fn set_epmd_port(port: u16) {
+    EPMD_PORT_OVERRIDE.store(port as u32, Ordering::SeqCst);
+}
+
+pub fn epmd_port_override() -> Option<u16> {
+    match EPMD_PORT_OVERRIDE.load(Ordering::SeqCst) {
+        0 => None,
+        p => Some(p as u16),
+    }
+}
+
+type YieldHook = Arc<dyn Fn(&str) -> u32 + Send + Sync>;
+
+static YIELD_HOOK: RwLock<Option<YieldHook>> = RwLock::new(None);
+
+/// Installs (or removes) the callback of the cooperative yield points in async code. It is called with the
+/// point's name (so it can record a trace) and returns how many times the task should yield to the runtime there.
+pub fn set_yield_hook(hook: Option<Box<dyn Fn(&str) -> u32 + Send + Sync>>) {
+    let mut slot = YIELD_HOOK.write().unwrap_or_else(|e| e.into_inner());
+    *slot = hook.map(Arc::from);
+}
+
+/// A cooperative yield point in async code. No-op when no callback is installed.
+pub async fn yield_point(name: &str) {
+    let hook = YIELD_HOOK.read().unwrap_or_else(|e| e.into_inner()).clone();
+    if let Some(h) = hook {
+        for _ in 0..h(name) {
+            tokio::task::yield_now().await;
+        }
+    }
+}
